@@ -20,12 +20,49 @@ def StrictInc : List K → Prop
   | a :: b :: rest => a < b ∧ StrictInc (b :: rest)
   | _ => True
 
-/-- the point lies between the first and the last knot of every axis -/
+/-- the point lies between the first and the last knot of every axis (in either order: the
+knots may ascend or descend) -/
 def InDomain : List (List K) → List K → Prop
   | [], [] => True
   | ax :: axes, x :: p =>
-    (∃ a b, ax.head? = some a ∧ ax.getLast? = some b ∧ a ≤ x ∧ x ≤ b) ∧ InDomain axes p
+    (∃ a b, ax.head? = some a ∧ ax.getLast? = some b ∧ ((a ≤ x ∧ x ≤ b) ∨ (b ≤ x ∧ x ≤ a))) ∧ InDomain axes p
   | _, _ => False
+
+/-- strictly decreasing knots -/
+def StrictDec : List K → Prop
+  | a :: b :: rest => b < a ∧ StrictDec (b :: rest)
+  | _ => True
+
+/-- strictly monotone knots: ascending or descending (what `RegularGridInterpolator` accepts) -/
+def StrictMono (l : List K) : Prop := StrictInc l ∨ StrictDec l
+
+theorem inLo_inc {a b : K} (h : a < b) (x : K) : inLo a b x = decide (a ≤ x) := by
+  simp [inLo, le_of_lt h]
+
+theorem inHi_inc {a b : K} (h : a < b) (x : K) : inHi a b x = decide (x ≤ b) := by
+  simp [inHi, le_of_lt h]
+
+theorem inLo_dec {a b : K} (h : b < a) (x : K) : inLo a b x = decide (x ≤ a) := by
+  simp [inLo, not_le.mpr h]
+
+theorem inHi_dec {a b : K} (h : b < a) (x : K) : inHi a b x = decide (b ≤ x) := by
+  simp [inHi, not_le.mpr h]
+
+theorem strictDec_neg : ∀ (l : List K), StrictDec l → StrictInc (l.map fun t => -t) := by
+  intro l
+  induction l with
+  | nil => intro _; trivial
+  | cons a l ih =>
+    intro h
+    cases l with
+    | nil => trivial
+    | cons b rest => exact ⟨neg_lt_neg h.1, ih h.2⟩
+
+theorem lerp_neg (a b va vb x : K) : lerp (-a) (-b) va vb (-x) = lerp a b va vb x := by
+  unfold lerp
+  have h1 : -x - -a = -(x - a) := by ring
+  have h2 : -b - -a = -(b - a) := by ring
+  rw [h1, h2, mul_neg, neg_div_neg_eq]
 
 theorem knot_gt : ∀ (b : K) (l : List K), StrictInc (b :: l) → ∀ y ∈ l, b < y := by
   intro b l
@@ -90,8 +127,8 @@ theorem interpAxis_affine (ext : Bool) (m : Nat) (rec : List K → Option K) (A 
         · simp [he]
         · simp at h; simp [h]
       rw [h1, h2]; rfl
-    simp only [interpAxis, List.isEmpty_nil, hc, if_true, List.flatMap_cons, List.flatMap_nil,
-      List.append_nil]
+    simp only [interpAxis, inLo_inc hs.1, inHi_inc hs.1, List.isEmpty_nil, hc, if_true, List.flatMap_cons,
+      List.flatMap_nil, List.append_nil]
     rw [List.take_left' (hg a), List.drop_left' (hg a), List.take_of_length_le (le_of_eq (hg b)),
       hrec a, hrec b]
     simp [lerp_affine a b A c x hab]
@@ -105,14 +142,14 @@ theorem interpAxis_affine (ext : Bool) (m : Nat) (rec : List K → Option K) (A 
     by_cases hxb : x ≤ b
     · have hc : (((ext && first) || decide (a ≤ x)) && ((ext && (k :: rest).isEmpty) || decide (x ≤ b))) = true := by
         simp [h1, hxb]
-      simp only [interpAxis, hc, if_true, List.flatMap_cons]
+      simp only [interpAxis, inLo_inc hs.1, inHi_inc hs.1, hc, if_true, List.flatMap_cons]
       rw [List.take_left' (hg a), List.drop_left' (hg a), List.take_left' (hg b), hrec a, hrec b]
       simp [lerp_affine a b A c x hab]
     · have hc : (((ext && first) || decide (a ≤ x)) && ((ext && (k :: rest).isEmpty) || decide (x ≤ b))) = false := by
         simp [hxb]
       have hbx : b ≤ x := le_of_lt (lt_of_not_ge hxb)
       have := ih b k false hs.2 (Or.inr hbx) (by simpa using hhi)
-      simp only [interpAxis, hc, List.flatMap_cons] at this ⊢
+      simp only [interpAxis, inLo_inc hs.1, inHi_inc hs.1, hc, List.flatMap_cons] at this ⊢
       rw [List.drop_left' (hg a)]
       simpa using this
 
@@ -120,54 +157,6 @@ theorem head_getLast_split (ax : List K) (h : 2 ≤ ax.length) :
     ∃ a b rest, ax = a :: b :: rest := by
   match ax, h with
   | a :: b :: rest, _ => exact ⟨a, b, rest, rfl⟩
-
-/-- the tensor-product interpolant of an affine function sampled on the grid is that function -/
-theorem interpFlat_affine (ext : Bool) (axes : List (List K)) (c0 : K) (cs p : List K)
-    (hc : cs.length = axes.length) (hp : p.length = axes.length)
-    (hax : ∀ ax ∈ axes, 2 ≤ ax.length ∧ StrictInc ax)
-    (hin : ext = true ∨ InDomain axes p) :
-    interpFlat ext axes (sampleAffine axes c0 cs) p = some (affine c0 cs p) := by
-  induction axes generalizing c0 cs p with
-  | nil =>
-    cases cs <;> cases p <;> simp_all [interpFlat, sampleAffine, affine, dot]
-  | cons ax rest ih =>
-    cases cs with
-    | nil => simp at hc
-    | cons c cs =>
-      cases p with
-      | nil => simp at hp
-      | cons x p =>
-        simp only [List.length_cons, Nat.add_right_cancel_iff] at hc hp
-        obtain ⟨h2, hs⟩ := hax ax (by simp)
-        obtain ⟨a, b, knots, rfl⟩ := head_getLast_split ax h2
-        have hrest : ∀ ax ∈ rest, 2 ≤ ax.length ∧ StrictInc ax := fun ax h => hax ax (by simp [h])
-        have hin' : ext = true ∨ InDomain rest p := by
-          rcases hin with h | h
-          · exact Or.inl h
-          · exact Or.inr h.2
-        have hrec : ∀ t, (fun v => interpFlat ext rest v p) (sampleAffine rest (c0 + c * t) cs)
-            = some (affine c0 cs p + c * t) := by
-          intro t
-          simp only
-          rw [ih (c0 + c * t) cs p hc hp hrest hin']
-          simp [affine]; ring
-        simp only [interpFlat, sampleAffine, affine_cons]
-        rw [interpAxis_affine ext _ _ (affine c0 cs p) c x (fun t => sampleAffine rest (c0 + c * t) cs)
-          (fun t => sampleAffine_length rest _ cs hc) hrec knots a b true hs]
-        · simp [affine]; ring
-        · rcases hin with h | h
-          · exact Or.inl ⟨rfl, h⟩
-          · obtain ⟨⟨a', b', ha, hb, h1, h2⟩, _⟩ := h
-            simp at ha; subst ha; exact Or.inr h1
-        · rcases hin with h | h
-          · exact Or.inl h
-          · obtain ⟨⟨a', b', ha, hb, h1, h2⟩, _⟩ := h
-            right
-            have : (a :: b :: knots).getLast? = some ((b :: knots).getLast (by simp)) := by
-              simp [List.getLast?_eq_some_getLast, List.getLast_cons]
-            rw [this] at hb
-            simp only [Option.some.injEq] at hb
-            rw [hb]; exact h2
 
 /-! ### dot products, barycentric combinations -/
 
@@ -288,6 +277,30 @@ theorem argminFrom_spec (p : List K) : ∀ (pts : List (List K)) (i0 j : Nat) (d
         · exact le_of_lt (lt_of_not_ge hle)
         · exact hmin q' hq'
 
+theorem knot_lt : ∀ (b : K) (l : List K), StrictDec (b :: l) → ∀ y ∈ l, y < b := by
+  intro b l
+  induction l generalizing b with
+  | nil => intro _ y hy; simp at hy
+  | cons c l ih =>
+    intro hs y hy
+    rcases List.mem_cons.mp hy with rfl | h
+    · exact hs.1
+    · exact lt_trans (ih c hs.2 y h) hs.1
+
+theorem nearestAxis_inc_cons {a b : K} (h : a < b) (knots : List K) (x : K) :
+    nearestAxis (a :: b :: knots) x =
+      if (decide (a ≤ x) && decide (x ≤ b)) = true then
+        (if (x - a) + (x - a) ≤ b - a then some 0 else some 1)
+      else (nearestAxis (b :: knots) x).map (· + 1) := by
+  simp only [nearestAxis, inLo_inc h, inHi_inc h, le_of_lt h, if_true]
+
+theorem nearestAxis_dec_cons {a b : K} (h : b < a) (knots : List K) (x : K) :
+    nearestAxis (a :: b :: knots) x =
+      if (decide (x ≤ a) && decide (b ≤ x)) = true then
+        (if (x - b) + (x - b) ≤ a - b then some 1 else some 0)
+      else (nearestAxis (b :: knots) x).map (· + 1) := by
+  simp only [nearestAxis, inLo_dec h, inHi_dec h, not_le.mpr h, if_false]
+
 theorem nearestAxis_ge_head : ∀ (knots : List K) (a x : K) (i : Nat), StrictInc (a :: knots) →
     nearestAxis (a :: knots) x = some i → a ≤ x := by
   intro knots
@@ -299,10 +312,157 @@ theorem nearestAxis_ge_head : ∀ (knots : List K) (a x : K) (i : Nat), StrictIn
     · exact hc.1
     · have hc' : (decide (a ≤ x) && decide (x ≤ b)) = false := by
         simp only [Bool.and_eq_false_iff, decide_eq_false_iff_not]; tauto
-      simp only [nearestAxis, hc'] at h
+      rw [nearestAxis_inc_cons hs.1] at h
+      simp only [hc', Bool.false_eq_true, if_false] at h
       cases hr : nearestAxis (b :: rest) x with
       | none => rw [hr] at h; simp at h
       | some j => exact le_trans (le_of_lt hs.1) (ih b x j hs.2 hr)
+
+theorem nearestAxis_le_head : ∀ (knots : List K) (a x : K) (i : Nat), StrictDec (a :: knots) →
+    nearestAxis (a :: knots) x = some i → x ≤ a := by
+  intro knots
+  induction knots with
+  | nil => intro a x i _ h; simp [nearestAxis] at h
+  | cons b rest ih =>
+    intro a x i hs h
+    by_cases hc : x ≤ a ∧ b ≤ x
+    · exact hc.1
+    · have hc' : (decide (x ≤ a) && decide (b ≤ x)) = false := by
+        simp only [Bool.and_eq_false_iff, decide_eq_false_iff_not]; tauto
+      rw [nearestAxis_dec_cons hs.1] at h
+      simp only [hc', Bool.false_eq_true, if_false] at h
+      cases hr : nearestAxis (b :: rest) x with
+      | none => rw [hr] at h; simp at h
+      | some j => exact le_trans (ih b x j hs.2 hr) (le_of_lt hs.1)
+
+/-- interpolation along a descending axis is interpolation along the negated (ascending) axis
+at the negated point -/
+theorem interpAxis_neg (ext : Bool) (m : Nat) (rec : List K → Option K) :
+    ∀ (knots vals : List K) (first : Bool) (x : K), StrictDec knots →
+      interpAxis ext m rec first knots vals x
+        = interpAxis ext m rec first (knots.map fun t => -t) vals (-x) := by
+  intro knots
+  induction knots with
+  | nil => intro vals first x _; simp [interpAxis]
+  | cons a knots ih =>
+    intro vals first x hs
+    cases knots with
+    | nil => simp [interpAxis]
+    | cons b rest =>
+      have hab : b < a := hs.1
+      have hab' : -a < -b := neg_lt_neg hab
+      have ih' := ih (vals.drop m) false x hs.2
+      simp only [List.map_cons] at ih' ⊢
+      rw [interpAxis, interpAxis]
+      simp only [inLo_dec hab, inHi_dec hab, inLo_inc hab', inHi_inc hab', neg_le_neg_iff, lerp_neg,
+        List.isEmpty_map]
+      rw [ih']
+
+/-- one axis, strictly *decreasing* knots -/
+theorem interpAxis_affine_dec (ext : Bool) (m : Nat) (rec : List K → Option K) (A c x : K)
+    (g : K → List K) (hg : ∀ t, (g t).length = m) (hrec : ∀ t, rec (g t) = some (A + c * t))
+    (rest : List K) (a b : K) (first : Bool) (hs : StrictDec (a :: b :: rest))
+    (hlo : (first = true ∧ ext = true) ∨ x ≤ a)
+    (hhi : ext = true ∨ (b :: rest).getLast (by simp) ≤ x) :
+    interpAxis ext m rec first (a :: b :: rest) ((a :: b :: rest).flatMap g) x = some (A + c * x) := by
+  rw [interpAxis_neg ext m rec _ _ first x hs]
+  have key := interpAxis_affine ext m rec A (-c) (-x) (fun t => g (-t)) (fun t => hg (-t))
+    (fun t => by rw [hrec (-t)]; congr 1; ring) (rest.map fun t => -t) (-a) (-b) first
+    (by simpa using strictDec_neg _ hs)
+    (by rcases hlo with h | h
+        · exact Or.inl h
+        · exact Or.inr (neg_le_neg h))
+    (by rcases hhi with h | h
+        · exact Or.inl h
+        · right
+          have : ((-b) :: rest.map fun t => -t).getLast (by simp) = -((b :: rest).getLast (by simp)) := by
+            have := List.getLast_map (f := fun t : K => -t) (l := b :: rest) (by simp)
+            simpa using this
+          rw [this]; exact neg_le_neg h)
+  have e : ((-a) :: (-b) :: rest.map fun t => -t).flatMap (fun t => g (-t)) = (a :: b :: rest).flatMap g := by
+    simp [List.flatMap_map]
+  rw [e] at key
+  simp only [List.map_cons]
+  rw [key]; congr 1; ring
+
+/-- the tensor-product interpolant of an affine function sampled on the grid is that function;
+every axis may ascend or descend independently -/
+theorem interpFlat_affine (ext : Bool) (axes : List (List K)) (c0 : K) (cs p : List K)
+    (hc : cs.length = axes.length) (hp : p.length = axes.length)
+    (hax : ∀ ax ∈ axes, 2 ≤ ax.length ∧ StrictMono ax)
+    (hin : ext = true ∨ InDomain axes p) :
+    interpFlat ext axes (sampleAffine axes c0 cs) p = some (affine c0 cs p) := by
+  induction axes generalizing c0 cs p with
+  | nil =>
+    cases cs <;> cases p <;> simp_all [interpFlat, sampleAffine, affine, dot]
+  | cons ax rest ih =>
+    cases cs with
+    | nil => simp at hc
+    | cons c cs =>
+      cases p with
+      | nil => simp at hp
+      | cons x p =>
+        simp only [List.length_cons, Nat.add_right_cancel_iff] at hc hp
+        obtain ⟨h2, hs⟩ := hax ax (by simp)
+        obtain ⟨a, b, knots, rfl⟩ := head_getLast_split ax h2
+        have hrest : ∀ ax ∈ rest, 2 ≤ ax.length ∧ StrictMono ax := fun ax h => hax ax (by simp [h])
+        have hin' : ext = true ∨ InDomain rest p := by
+          rcases hin with h | h
+          · exact Or.inl h
+          · exact Or.inr h.2
+        have hrec : ∀ t, (fun v => interpFlat ext rest v p) (sampleAffine rest (c0 + c * t) cs)
+            = some (affine c0 cs p + c * t) := by
+          intro t
+          simp only
+          rw [ih (c0 + c * t) cs p hc hp hrest hin']
+          simp [affine]; ring
+        have hlast : (a :: b :: knots).getLast? = some ((b :: knots).getLast (by simp)) := by
+          simp [List.getLast?_eq_some_getLast, List.getLast_cons]
+        have hmem : (b :: knots).getLast (by simp) ∈ b :: knots := List.getLast_mem _
+        simp only [interpFlat, sampleAffine, affine_cons]
+        rcases hs with hs | hs
+        · rw [interpAxis_affine ext _ _ (affine c0 cs p) c x (fun t => sampleAffine rest (c0 + c * t) cs)
+            (fun t => sampleAffine_length rest _ cs hc) hrec knots a b true hs]
+          · simp [affine]; ring
+          · rcases hin with h | h
+            · exact Or.inl ⟨rfl, h⟩
+            · obtain ⟨⟨a', b', ha, hb, hbt⟩, _⟩ := h
+              simp at ha; subst ha
+              rw [hlast] at hb; simp only [Option.some.injEq] at hb; subst hb
+              have hlt := knot_gt a (b :: knots) hs _ hmem
+              rcases hbt with h1 | h1
+              · exact Or.inr h1.1
+              · exact absurd (lt_of_lt_of_le hlt (le_trans h1.1 h1.2)) (lt_irrefl _)
+          · rcases hin with h | h
+            · exact Or.inl h
+            · obtain ⟨⟨a', b', ha, hb, hbt⟩, _⟩ := h
+              simp at ha; subst ha
+              rw [hlast] at hb; simp only [Option.some.injEq] at hb; subst hb
+              have hlt := knot_gt a (b :: knots) hs _ hmem
+              rcases hbt with h1 | h1
+              · exact Or.inr h1.2
+              · exact absurd (lt_of_lt_of_le hlt (le_trans h1.1 h1.2)) (lt_irrefl _)
+        · rw [interpAxis_affine_dec ext _ _ (affine c0 cs p) c x (fun t => sampleAffine rest (c0 + c * t) cs)
+            (fun t => sampleAffine_length rest _ cs hc) hrec knots a b true hs]
+          · simp [affine]; ring
+          · rcases hin with h | h
+            · exact Or.inl ⟨rfl, h⟩
+            · obtain ⟨⟨a', b', ha, hb, hbt⟩, _⟩ := h
+              simp at ha; subst ha
+              rw [hlast] at hb; simp only [Option.some.injEq] at hb; subst hb
+              have hlt := knot_lt a (b :: knots) hs _ hmem
+              rcases hbt with h1 | h1
+              · exact absurd (lt_of_lt_of_le hlt (le_trans h1.1 h1.2)) (lt_irrefl _)
+              · exact Or.inr h1.2
+          · rcases hin with h | h
+            · exact Or.inl h
+            · obtain ⟨⟨a', b', ha, hb, hbt⟩, _⟩ := h
+              simp at ha; subst ha
+              rw [hlast] at hb; simp only [Option.some.injEq] at hb; subst hb
+              have hlt := knot_lt a (b :: knots) hs _ hmem
+              rcases hbt with h1 | h1
+              · exact absurd (lt_of_lt_of_le hlt (le_trans h1.1 h1.2)) (lt_irrefl _)
+              · exact Or.inr h1.1
 
 /-- the grid point with per-axis indices `idx` -/
 def pointAt : List (List K) → List Nat → List K
